@@ -389,14 +389,116 @@ func IsErrWrap(v ssa.Value) (inner ssa.Value, ok bool) {
 	}
 	cal := Callee(call.Common())
 	if cal == nil {
-		return nil, false
+		// a decoration behind an internal seam: every implementation must be a wrapper of the same parameter
+		impls := SeamAll(call.Common())
+		if g := Seam(call.Common()); g != nil {
+			impls = []*ssa.Function{g}
+		}
+		idx := -1
+		for _, g := range impls {
+			i, isWrap := wrapsParam(g, 0)
+			if !isWrap || (idx >= 0 && i != idx) {
+				return nil, false
+			}
+			idx = i
+		}
+		if idx < 1 || idx-1 >= len(call.Common().Args) {
+			return nil, false
+		}
+		return call.Common().Args[idx-1], true // (the receiver of an invoke is not among the arguments)
 	}
 	switch cal.String() {
 	case "github.com/pkg/errors.Wrap", "github.com/pkg/errors.Wrapf", "github.com/pkg/errors.WithMessage",
 		"github.com/pkg/errors.WithMessagef", "github.com/pkg/errors.WithStack":
 		return call.Common().Args[0], true
 	}
+	if cal.Blocks != nil && cal.Pkg != nil && InScopePath(cal.Pkg.Pkg.Path()) {
+		if i, isWrap := wrapsParam(cal, 0); isWrap && i < len(call.Common().Args) {
+			return call.Common().Args[i], true
+		}
+	}
 	return nil, false
+}
+
+var wrapsParamMemo sync.Map // *ssa.Function -> int (parameter index, -1: not a wrapper)
+
+// wrapsParam: fn has exactly one error parameter, and every return hands back that parameter, a pkg/errors wrapper
+// of it, or a freshly constructed error - it answers nil only if it was given nil.
+func wrapsParam(fn *ssa.Function, depth int) (int, bool) {
+	if fn == nil || fn.Blocks == nil || depth > 2 {
+		return -1, false
+	}
+	if v, ok := wrapsParamMemo.Load(fn); ok {
+		return v.(int), v.(int) >= 0
+	}
+	res := -1
+	defer func() { wrapsParamMemo.Store(fn, res) }()
+	sig := fn.Signature
+	if sig.Results().Len() != 1 || !isErrType(sig.Results().At(0).Type()) {
+		return -1, false
+	}
+	idx := -1
+	for i, p := range fn.Params {
+		if isErrType(p.Type()) {
+			if idx >= 0 {
+				return -1, false
+			}
+			idx = i
+		}
+	}
+	if idx < 0 {
+		return -1, false
+	}
+	p := fn.Params[idx]
+	var carrier func(v ssa.Value, d int) bool
+	carrier = func(v ssa.Value, d int) bool {
+		if d > 4 {
+			return false
+		}
+		if v == ssa.Value(p) || IsErrCtor(v) {
+			return true
+		}
+		if ph, isPhi := v.(*ssa.Phi); isPhi {
+			for _, e := range ph.Edges {
+				if !carrier(e, d+1) {
+					return false
+				}
+			}
+			return true
+		}
+		if call, isCall := v.(*ssa.Call); isCall {
+			if cal := Callee(call.Common()); cal != nil && cal != fn {
+				switch cal.String() {
+				case "github.com/pkg/errors.Wrap", "github.com/pkg/errors.Wrapf", "github.com/pkg/errors.WithMessage",
+					"github.com/pkg/errors.WithMessagef", "github.com/pkg/errors.WithStack":
+					return carrier(call.Common().Args[0], d+1)
+				}
+				if cal.Blocks != nil {
+					if i, ok := wrapsParam(cal, depth+1); ok && i < len(call.Common().Args) {
+						return carrier(call.Common().Args[i], d+1)
+					}
+				}
+			}
+		}
+		return false
+	}
+	n := 0
+	for _, ret := range Returns(fn) {
+		n++
+		if len(ret.Results) != 1 || !carrier(ret.Results[0], 0) {
+			return -1, false
+		}
+	}
+	if n == 0 {
+		return -1, false
+	}
+	res = idx
+	return idx, true
+}
+
+func isErrType(t types.Type) bool {
+	n, ok := t.(*types.Named)
+	return ok && n.Obj().Pkg() == nil && n.Obj().Name() == "error"
 }
 
 // NonNilAt: v is provably a non-nil error at instruction `at`.
